@@ -20,6 +20,7 @@ mod gcprobe;
 mod vmgen;
 mod vmrun;
 mod c17;
+mod c15;
 
 use std::path::PathBuf;
 
@@ -69,6 +70,7 @@ fn main() {
         ("gen", "VM") | ("gen", "C03") | ("gen", "C18") => vmrun::gen(&a),
         ("replay", "VM") => vmrun::replay(&a),
         ("gen", "C17") => c17::gen(&a),
+        ("gen", "C15") => c15::gen(&a),
         _ => { eprintln!("unknown command/property"); std::process::exit(2); }
     }
 }
